@@ -3,8 +3,13 @@
   Model: `Model/Preproc.lean` (character-level mirror of the preprocessor lexer, the LALRPOP grammar as a
   recursive-descent parser, `process_nodes`); SPEC: the line-by-line stack machine `specRun` / `cspecFile`.
   Every statement quantifies over all files / token streams / trees / symbol sets.
+  The refinement (d) and the rejection criterion (e) are proved at the token level AND at the character level
+  (`refines_stack_machine_full`, `rejects_iff_malformed_full`): lexer = line-by-line reading (`lexer_reads_lines`),
+  parser = stack machine (`rejects_iff_malformed_tokens`), SPEC over raw lines = stack machine over abstract lines
+  (`spec_reads_lines`).
 -/
 import SlicecVerif.Lemmas.Preproc
+import SlicecVerif.Lemmas.PreprocSpec
 
 namespace Slicec.C06
 
@@ -85,26 +90,27 @@ theorem file_isolation (D : Syms) (fs : List (List Char)) : preprocessFiles D fs
 
 /-! ## (d) refinement of the line-by-line stack machine -/
 
-/-- FULL statement (character level; not proved, cross-checked on every generated file by the driver — a disagreement
-    is emitted as a model counterexample): whenever the stack machine over the raw lines of `f` accepts, the model
-    accepts, the located non-whitespace characters of the emitted blocks are exactly those of the selected source lines,
-    and the final symbol sets agree. -/
-def refines_stack_machine_full : Prop :=
-  ∀ (f : List Char) (D : Syms) (cs : List LChar) (D' : Syms), cspecFile f D = some (cs, D') →
-    ∃ bs D'', preprocess f D = .ok (bs, D'') ∧ bs.flatMap locatedBlock = cs ∧ (∀ s, D''.contains s = D'.contains s)
-
-/-- PROVED for the line-structured fragment, at the token level.  Whenever the model's parser accepts a token stream
-    `toks` with tree `ns`: (1) `toks` is the concatenation of the tokens of the abstract lines `ns.lines`
-    (`src | #if e | #elif e | #else | #endif | #define s | #undef s`, all well-formed), and (2) the textbook stack machine
-    (frames `(anyBranchTaken, active, seenElse)`; a source line is selected iff every frame is active; `#define`/`#undef`
-    act iff every frame is active; `#elif` is considered only if no earlier branch was taken) run over these lines from
-    the symbols `D` ends with an empty stack and has emitted exactly the blocks, in the same order, and exactly the final
-    symbol set that the model's `evalNodes` (the mirror of `process_nodes`) computes.
-    Missing for the full statement: the character-level link `lines of f ↔ lexPre f` (tied by correspondence and by the
-    driver's cross-check instead) and the completeness direction of (e). -/
-theorem refines_stack_machine_partial (toks : List PTok) (ns : Nodes) (D : Syms) (h : parsePre toks = some ns) :
-    linesToks ns.lines = toks ∧ specFile ns.lines D = some (evalNodes ns ⟨[], D⟩) :=
-  ⟨(parsePre_sound toks ns h).symm, specFile_tree ns D⟩
+/-- Token level, both directions.  (1) Whenever the model's parser accepts a token stream `toks` with tree `ns`, `toks` is
+    the concatenation of the tokens of the abstract lines `ns.lines` (`src | #if e | #elif e | #else | #endif | #define s |
+    #undef s`, all well-formed), and the textbook stack machine (frames `(anyBranchTaken, active, seenElse)`; a source line
+    is selected iff every frame is active; `#define`/`#undef` act iff every frame is active; `#elif` is considered only if
+    no earlier branch was taken) run over these lines from the symbols `D` ends with an empty stack and has emitted
+    exactly the blocks, in the same order, and exactly the final symbol set that the model's `evalNodes` (the mirror of
+    `process_nodes`) computes.  (2) Conversely, for EVERY list of abstract lines on which the stack machine ends balanced
+    with result `out`, the parser accepts the tokens of these lines, the tree it builds has exactly these lines, and
+    evaluating the tree gives `out`. -/
+theorem refines_stack_machine_tokens (D : Syms) :
+    (∀ toks ns, parsePre toks = some ns →
+      linesToks ns.lines = toks ∧ specFile ns.lines D = some (evalNodes ns ⟨[], D⟩)) ∧
+    (∀ ls out, specFile ls D = some out →
+      ∃ ns, parsePre (linesToks ls) = some ns ∧ ns.lines = ls ∧ evalNodes ns ⟨[], D⟩ = out) := by
+  refine ⟨fun toks ns h => ⟨(parsePre_sound toks ns h).symm, specFile_tree ns D⟩, ?_⟩
+  intro ls out h
+  obtain ⟨ns, h1, h2⟩ := parsePre_of_lines ls D (by rw [h]; simp)
+  refine ⟨ns, h1, h2, ?_⟩
+  have := specFile_tree ns D
+  rw [h2, h] at this
+  exact (Option.some.inj this).symm
 
 /-- The stack machine on the lines of ANY tree (nested to any depth) computes what the model computes; inside an
     unselected region nothing is emitted and no symbol changes. -/
@@ -112,25 +118,169 @@ theorem stack_machine_on_tree (ns : Nodes) (stk : List Frame) (out : PState) :
     specRun ⟨stk, out⟩ ns.lines = some ⟨stk, if allActive stk then evalNodes ns out else out⟩ :=
   spec_nodes ns stk out
 
+/-- The character-level link, lexer side.  For every file `f`: `lexPre f` succeeds with the token list `toks` iff the
+    declarative line-by-line reading `declLines` of the lines of `f` (split at `'\n'`) gives `toks`.  That reading is:
+    a line consisting of inline whitespace contributes nothing; a line whose first character other than inline
+    whitespace is `#` contributes the tokens `dirLine` of its text from the `#` on (keyword after optional blanks,
+    identifiers, `! && || ( )`, further `#keyword`s, an optional `//` comment to the end of the line; anything else is
+    a lexical error) followed by `DirectiveEnd`; every maximal run of other lines containing a source line contributes
+    ONE block token, which starts at the first non-blank character of its first source line (location = `locAt f` of
+    that offset), and whose content is the text of `f` from there up to the `#` of the next directive line (after that
+    line's indentation) or the end of the file.  A lexical error in ANY directive line makes `lexPre f` fail. -/
+theorem lexer_reads_lines (f : List Char) (toks : List PTok) :
+    lexPre f = .ok toks ↔ declLines f (splitLines f) none = some toks :=
+  lexPre_ok_iff f toks
+
+/-- Lexical well-formedness is decided line by line: `lexPre f` succeeds iff every directive line of `f` (first
+    character other than inline whitespace is `#`), lexed ON ITS OWN, is lexically well-formed.  Source lines are never
+    looked at (they are passed through verbatim inside a block). -/
+theorem lexer_ok_iff_lines_ok (f : List Char) :
+    (∃ toks, lexPre f = .ok toks) ↔ ∀ l ∈ splitLines f, isDirLine l → ∃ t, lexPre l = .ok t := by
+  obtain ⟨_, hnl, _⟩ := splitLines_spec f
+  have h1 : (∃ toks, lexPre f = .ok toks) ↔ declLines f (splitLines f) none ≠ none := by
+    constructor
+    · rintro ⟨toks, h⟩; rw [(lexPre_ok_iff f toks).mp h]; simp
+    · intro h
+      cases hd : declLines f (splitLines f) none with
+      | none => exact absurd hd h
+      | some toks => exact ⟨toks, (lexPre_ok_iff f toks).mpr hd⟩
+  rw [h1, declLines_ne_none]
+  constructor
+  · intro h l hl ⟨d', hd⟩
+    have := lexPre_dirline l d' (hnl l hl) hd
+    cases hx : dirLine ('#' :: d') with
+    | none => exact absurd hx (h l hl d' hd)
+    | some ts =>
+      rw [hx] at this
+      cases hlex : lexPre l with
+      | ok t => exact ⟨t, rfl⟩
+      | error e => rw [hlex] at this; simp at this
+  · intro h l hl d' hd
+    obtain ⟨t, ht⟩ := h l hl ⟨d', hd⟩
+    have := lexPre_dirline l d' (hnl l hl) hd
+    rw [ht] at this
+    intro hx
+    rw [hx] at this
+    simp at this
+
+/-- The character-level SPEC read declaratively.  `cspecFile f D` (the stack machine over the raw lines of `f`, which
+    classifies every line on its own) accepts iff every directive line of `f` spells a well-formed directive
+    (`absLines ≠ none`) and the token-level stack machine `specFile` over the resulting abstract lines ends balanced;
+    its result then is the located non-whitespace characters of the emitted blocks and the final symbols. -/
+theorem spec_reads_lines (f : List Char) (D : Syms) :
+    cspecFile f D = (absLines f (splitLines f) none).bind fun als =>
+      (specFile als D).map fun o => (o.blocks.flatMap locatedBlock, o.syms) :=
+  cspecFile_eq f D
+
+/-- The model accepts exactly when the file reads as abstract lines on which the stack machine ends balanced, and
+    then returns the stack machine's blocks and symbols. -/
+theorem preprocess_iff_lines (f : List Char) (D : Syms) (bs : List Block) (D' : Syms) :
+    preprocess f D = .ok (bs, D') ↔
+      ∃ als out, absLines f (splitLines f) none = some als ∧ specFile als D = some out ∧ bs = out.blocks ∧ D' = out.syms := by
+  constructor
+  · intro h
+    unfold preprocess at h
+    cases hl : lexPre f with
+    | error e => rw [hl] at h; cases h
+    | ok toks =>
+      rw [hl] at h
+      simp only at h
+      cases hp : parsePre toks with
+      | none => rw [hp] at h; cases h
+      | some ns =>
+        rw [hp] at h
+        simp only [Except.ok.injEq, Prod.mk.injEq] at h
+        have ht := parsePre_sound toks ns hp
+        refine ⟨ns.lines, evalNodes ns ⟨[], D⟩, ?_, specFile_tree ns D, h.1.symm, h.2.symm⟩
+        apply absLines_of_toks
+        rw [(lexPre_ok_iff f toks).mp hl, ht]
+        rfl
+  · rintro ⟨als, out, h1, h2, rfl, rfl⟩
+    have hl := (lexPre_ok_iff f _).mpr (absLines_toks f _ _ _ h1)
+    obtain ⟨ns, hp, hns⟩ := parsePre_of_lines als D (by rw [h2]; simp)
+    have ht := specFile_tree ns D
+    rw [hns, h2] at ht
+    unfold preprocess
+    rw [hl]
+    simp only [hp]
+    rw [← Option.some.inj ht]
+
+/-- FULL, character level.  Whenever the stack machine over the raw lines of `f` accepts (every directive line is a
+    well-formed directive, no `#elif`/`#else`/`#endif` without an open `#if` or after `#else`, nothing left open), the
+    model accepts, the located non-whitespace characters of the emitted blocks are exactly those of the selected source
+    lines, each at its original row and column, and the final symbol sets agree (they are equal). -/
+theorem refines_stack_machine_full :
+    ∀ (f : List Char) (D : Syms) (cs : List LChar) (D' : Syms), cspecFile f D = some (cs, D') →
+      ∃ bs D'', preprocess f D = .ok (bs, D'') ∧ bs.flatMap locatedBlock = cs ∧ (∀ s, D''.contains s = D'.contains s) := by
+  intro f D cs D' h
+  rw [cspecFile_eq] at h
+  cases ha : absLines f (splitLines f) none with
+  | none => rw [ha] at h; cases h
+  | some als =>
+    rw [ha] at h
+    simp only [Option.bind] at h
+    cases hs : specFile als D with
+    | none => rw [hs] at h; cases h
+    | some out =>
+      rw [hs] at h
+      simp only [Option.map, Option.some.injEq, Prod.mk.injEq] at h
+      exact ⟨out.blocks, out.syms, (preprocess_iff_lines f D _ _).mpr ⟨als, out, ha, hs, rfl, rfl⟩, h.1,
+        fun s => by rw [h.2]⟩
+
 /-! ## (e) malformed or unbalanced input is rejected -/
 
-/-- FULL statement (character level; not proved, cross-checked by the driver on every generated file). -/
-def rejects_iff_malformed_full : Prop :=
-  ∀ (f : List Char) (D : Syms), (∃ r, preprocess f D = .error r) ↔ cspecFile f D = none
+/-- COMPLETENESS of the parser: every list of (well-formed) abstract lines on which the stack machine does not fail —
+    no `#elif`/`#else`/`#endif` without an open `#if`, none after `#else`, nothing left open — is accepted, and the tree
+    the parser builds has exactly these lines. -/
+theorem parser_complete (ls : List ALine) (D : Syms) (h : specFile ls D ≠ none) :
+    ∃ ns, parsePre (linesToks ls) = some ns ∧ ns.lines = ls :=
+  parsePre_of_lines ls D h
 
-/-- PROVED direction, token level: acceptance implies well-formedness and balance — if the parser accepts `toks` then
-    `toks` splits into well-formed abstract lines on which the stack machine never underflows, never sees `#elif`/`#else`
-    after `#else`, and ends with an empty stack (for every symbol set).  Hence a token stream that admits no such
-    reading is rejected.  Missing: that every balanced well-formed line list is accepted (completeness of the parser). -/
-theorem rejects_iff_malformed_partial (toks : List PTok) (h : parsePre toks ≠ none) :
-    ∃ ls : List ALine, linesToks ls = toks ∧ ∀ D, specFile ls D ≠ none := by
-  cases hp : parsePre toks with
-  | none => exact absurd hp h
-  | some ns =>
-    refine ⟨ns.lines, (parsePre_sound toks ns hp).symm, ?_⟩
-    intro D
-    rw [specFile_tree]
-    simp
+/-- Whether the stack machine fails on a line list depends on the lines only, not on the symbols. -/
+theorem balance_indep_of_symbols (ls : List ALine) (D D' : Syms) : specFile ls D ≠ none ↔ specFile ls D' ≠ none :=
+  specFile_ne_none_indep ls D D'
+
+/-- FULL at the token level: the parser accepts a token stream iff it is the concatenation of the tokens of well-formed
+    abstract lines on which the stack machine neither underflows, nor sees `#elif`/`#else` after `#else`, nor ends with
+    an open conditional (for one, equivalently every, symbol set).  Hence every other stream is a syntax error. -/
+theorem rejects_iff_malformed_tokens (toks : List PTok) (D : Syms) :
+    parsePre toks ≠ none ↔ ∃ ls : List ALine, linesToks ls = toks ∧ specFile ls D ≠ none := by
+  constructor
+  · intro h
+    cases hp : parsePre toks with
+    | none => exact absurd hp h
+    | some ns =>
+      refine ⟨ns.lines, (parsePre_sound toks ns hp).symm, ?_⟩
+      rw [specFile_tree]
+      simp
+  · rintro ⟨ls, rfl, h⟩
+    obtain ⟨ns, hp, _⟩ := parsePre_of_lines ls D h
+    rw [hp]; simp
+
+/-- FULL, character level: the model rejects a file (lexical or syntax error) iff the stack machine over its raw lines
+    rejects it — some directive line is not a well-formed directive, or `#elif`/`#else`/`#endif` come without an open
+    `#if` or after `#else`, or a conditional is left open.  Nothing malformed or unbalanced is silently ignored, and
+    nothing well-formed and balanced is rejected. -/
+theorem rejects_iff_malformed_full :
+    ∀ (f : List Char) (D : Syms), (∃ r, preprocess f D = .error r) ↔ cspecFile f D = none := by
+  intro f D
+  constructor
+  · rintro ⟨r, hr⟩
+    cases hc : cspecFile f D with
+    | none => rfl
+    | some x =>
+      obtain ⟨cs, D'⟩ := x
+      obtain ⟨bs, D'', h, _⟩ := refines_stack_machine_full f D cs D' hc
+      rw [hr] at h; cases h
+  · intro hc
+    cases hp : preprocess f D with
+    | error r => exact ⟨r, rfl⟩
+    | ok x =>
+      obtain ⟨bs, D'⟩ := x
+      obtain ⟨als, out, h1, h2, _, _⟩ := (preprocess_iff_lines f D bs D').mp hp
+      rw [cspecFile_eq, h1] at hc
+      simp only [Option.bind, h2, Option.map] at hc
+      cases hc
 
 /-- Any lexical error and any syntax error rejects the whole file (`parse_slice_file` returns `Err` whenever an error
     was recorded, recovered or not): the model accepts only if both the lexer and the parser succeed. -/
@@ -195,6 +345,30 @@ example : specFile (Nodes.cons (.cond (.term A) (.cons (.define "B") .nil) (.els
     some ⟨[], ["C"]⟩ := by
   rw [specFile_tree]; rfl
 
+/-- a balanced line list (hypothesis of `parser_complete`, right-hand side of `rejects_iff_malformed_tokens`) -/
+example : specFile [.if_ (.term A), .src default, .elif (.term B), .else_, .define "C", .endif, .undef "A"] ["A"] ≠ none := by
+  decide
+/-- unbalanced line lists: `#else` twice, `#endif` without `#if`, `#if` left open -/
+example : specFile [.if_ (.term A), .else_, .else_, .endif] [] = none ∧ specFile [.endif] [] = none ∧
+    specFile [.if_ (.term A)] [] = none := by decide
+/-- the character-level SPEC accepts a file with a source line (hypothesis of `refines_stack_machine_full`) … -/
+example : cspecFile [' ', 'x', '\n', 'y'] [] = some ([(1, 2, 'x'), (2, 1, 'y')], []) := by decide
+/-- … and so does the model, with one block starting at 1:2 -/
+example : (match preprocess [' ', 'x', '\n', 'y'] [] with | .ok r => some r | .error _ => none) =
+    some ([⟨⟨1, 2⟩, 1, ['x', '\n', 'y']⟩], []) := by decide
+
+/-- a file with directives, indentation and a trailing comment: accepted by the SPEC over raw lines, with the selected
+    line's character at its original location (hypothesis of `refines_stack_machine_full`, for two symbol sets) -/
+private def f1 : List Char :=
+  ['#', 'i', 'f', ' ', 'A', '\n', ' ', 'x', '\n', '#', 'e', 'l', 's', 'e', ' ', '/', '/', 'c', '\n', 'y', '\n',
+   '#', 'e', 'n', 'd', 'i', 'f']
+example : cspecFile f1 ["A"] = some ([(2, 2, 'x')], ["A"]) := by decide
+example : cspecFile f1 [] = some ([(4, 1, 'y')], []) := by decide
+/-- rejected files (right-hand side of `rejects_iff_malformed_full`): an open `#if`, a directive without expression -/
+example : cspecFile ['#', 'i', 'f', ' ', 'A', '\n', 'x'] [] = none ∧ cspecFile ['#', 'i', 'f'] [] = none := by decide
+/-- a directive line in the sense of `lexer_ok_iff_lines_ok` -/
+example : isDirLine [' ', '#', 'i', 'f'] := ⟨['i', 'f'], by decide⟩
+
 end Slicec.C06
 
 #print axioms Slicec.C06.expr_parse_print
@@ -204,8 +378,16 @@ end Slicec.C06
 #print axioms Slicec.C06.in_place
 #print axioms Slicec.C06.advance_fold
 #print axioms Slicec.C06.file_isolation
-#print axioms Slicec.C06.refines_stack_machine_partial
+#print axioms Slicec.C06.refines_stack_machine_tokens
 #print axioms Slicec.C06.stack_machine_on_tree
-#print axioms Slicec.C06.rejects_iff_malformed_partial
+#print axioms Slicec.C06.lexer_reads_lines
+#print axioms Slicec.C06.lexer_ok_iff_lines_ok
+#print axioms Slicec.C06.spec_reads_lines
+#print axioms Slicec.C06.preprocess_iff_lines
+#print axioms Slicec.C06.refines_stack_machine_full
+#print axioms Slicec.C06.parser_complete
+#print axioms Slicec.C06.balance_indep_of_symbols
+#print axioms Slicec.C06.rejects_iff_malformed_tokens
+#print axioms Slicec.C06.rejects_iff_malformed_full
 #print axioms Slicec.C06.accepts_only_if_lexed_and_parsed
 #print axioms Slicec.C06.model_grammar_eq_extracted
